@@ -597,3 +597,149 @@ PROPS["C03"] = {
                     "lattice values are finite and stay finite when converted to the coordinate precision (a double above FLT_MAX read through float coordinates becomes inf, and 0*inf = NaN)"],
     "not_covered": ["forward error bound for arbitrary fractional parts and data", "containment in the range of the surrounding values"],
 }
+
+
+# ------------------------------------------------------------------ C15 / C16 (sweeps over every extracted function)
+import copy
+import re as _re
+
+
+def _both_flavours(cells):
+    out, seen = [], set()
+    for c in cells:
+        base = _re.sub(r"\.(debug|ndebug)$", "", c.id)
+        for fl in ("debug", "ndebug"):
+            key = (base, fl)
+            if key in seen:
+                continue
+            seen.add(key)
+            d = copy.copy(c)
+            d.id = base + "." + fl
+            d.flavour = fl
+            out.append(d)
+    return out
+
+
+def sweep_cells(tier, consts, lookups_only=False):
+    """One cell per distinct code path of every function under contract (quick selection of each property)."""
+    cells = []
+    cells += [c for c in morton_cells("quick", ["index", "at"]) if ".N3." in c.id or ".N2." in c.id or (tier == "thorough")]
+    cells += [c for c in strided_cells("quick", ["formula", "bound8"]) if ".N3." in c.id or ".N2." in c.id or tier == "thorough"]
+    cells += [c for c in hilbert_cells("quick", ["rot", "box"], kmax_quick=4) if "injective" not in c.id]
+    cells += array_at_cells("quick")[:2]
+    cells += [c for c in cells_C10("quick", consts) if c.enforce and (".N3." in c.id or tier == "thorough")]
+    cells += [c for c in cells_C11("quick", consts) if ".N3." in c.id or ".N2." in c.id or tier == "thorough"]
+    cells += [c for c in cells_C04("quick", consts) if ".N3." in c.id or tier == "thorough"]
+    cells += [c for c in simple_layer_cells("quick") if c.enforce and ("N3" in c.id or "p2_0_1" in c.id or "N1.M3" in c.id or tier == "thorough")]
+    cells += [c for c in cells_C03("quick", consts) if "weights" not in c.id and (".N2." in c.id or ".N4." in c.id or "helper" in c.id or tier == "thorough")]
+    if not lookups_only:
+        cells += [c for c in cells_C18("quick", consts) if c.enforce and (c.id.startswith("round_pow2") or ".u64" in c.id or ".u8" in c.id or "alloc" in c.id)]
+        cells += binio_cells("quick")
+        if tier == "thorough":   # the payload-loop cells take minutes each; in the quick tier they run under C06/C08 only
+            cells += [c for c in array_io_cells("quick", ["read", "write"]) if "M1.float" in c.id]
+        cells += cells_C12("quick", consts)
+    cells = [c for c in cells if c.enforce]
+    return cells
+
+
+def static_fact_return_type(tier, scratch):
+    src = os.path.join(VERIF, "tools", "instantiate.cpp")
+    cmd = ["g++", "-std=c++20", "-fsyntax-only", "-Wreturn-type", "-Werror=return-type", "-I", os.path.join(extract.REPO, "lib/core"), src]
+    p = subprocess.run(cmd, capture_output=True, text=True)
+    errs = [l for l in p.stderr.splitlines() if "error" in l]
+    rt = [l for l in errs if "return" in l and ("no return statement" in l or "control reaches end" in l)]
+    if rt:
+        st, detail = "violated", rt[0][:400]
+    elif errs:
+        st, detail = "undecided", "instantiation TU does not compile: " + errs[0][:300]
+    else:
+        st, detail = "holds", "every member function body of the instantiated layers returns a value on all paths (g++ -Wreturn-type)"
+    return {"name": "value-returning-functions-return", "status": st, "tool": "g++ 12 -fsyntax-only -Wreturn-type", "cmd": " ".join(cmd),
+            "detail": detail, "obligation": "Wreturn-type"}
+
+
+ASSERT_PURE_CALLS = ("good", "eof", "fail", "bad", "size", "get")
+
+
+def static_fact_assert_purity(tier, scratch):
+    """debug and NDEBUG builds differ only in assert(...) / #ifndef NDEBUG blocks; those must be side-effect free."""
+    bad, n = [], 0
+    root = os.path.join(extract.REPO, "lib/core/covfie/core")
+    for dp, dn, fn in os.walk(root):
+        for f in fn:
+            if not f.endswith(".hpp"):
+                continue
+            text = extract.blank_comments_and_strings(open(os.path.join(dp, f)).read())
+            for m in _re.finditer(r"\bassert\s*\(", text):
+                cp = extract.match_close(text, m.end() - 1)
+                e = text[m.end():cp]
+                n += 1
+                if _re.search(r"(?<![=!<>])=(?!=)|\+\+|--", e):
+                    bad.append("%s: assert(%s)" % (f, " ".join(e.split())))
+                for cm in _re.finditer(r"([A-Za-z_]\w*)\s*\(", e):
+                    if cm.group(1) not in ASSERT_PURE_CALLS:
+                        bad.append("%s: assert calls %s()" % (f, cm.group(1)))
+            for m in _re.finditer(r"#\s*ifndef\s+NDEBUG(.*?)#\s*endif", open(os.path.join(dp, f)).read(), _re.S):
+                blk = extract.blank_comments_and_strings(m.group(1))
+                stripped = _re.sub(r"\bassert\s*\((?:[^()]|\([^()]*\))*\)\s*;", "", blk)
+                stripped = _re.sub(r"for\s*\(\s*std::size_t\s+\w+\s*=\s*0\s*;[^;]*;[^)]*\)\s*\{\s*\}", "", stripped)
+                if stripped.strip():
+                    bad.append("%s: #ifndef NDEBUG block contains code other than assertion loops: %r" % (f, " ".join(stripped.split())[:120]))
+    return {"name": "debug-and-release-differ-only-in-pure-assertions", "status": "violated" if bad else "holds",
+            "tool": "syntactic scan of the headers (tools/props.py)", "cmd": "",
+            "detail": ("; ".join(bad))[:600] if bad else "%d assert expressions scanned: no assignment, ++/--, or impure call; #ifndef NDEBUG blocks contain only assertion loops" % n,
+            "obligation": "assert-purity"}
+
+
+def static_fact_hidden_state(tier, scratch):
+    bad = []
+    root = os.path.join(extract.REPO, "lib/core/covfie/core")
+    for dp, dn, fn in os.walk(root):
+        for f in fn:
+            if not f.endswith(".hpp"):
+                continue
+            text = extract.blank_comments_and_strings(open(os.path.join(dp, f)).read())
+            for i, line in enumerate(text.split("\n"), 1):
+                if _re.search(r"\b(thread_local|mutable)\b", line):
+                    bad.append("%s:%d %s" % (f, i, line.strip()[:80]))
+                m = _re.search(r"\bstatic\b(?!\s*(constexpr|inline\s+constexpr|_assert|_cast))", line)
+                if m and not _re.search(r"static\s+[\w:<>,\s\*&\[\]]*\(|static\s+constexpr|static_assert|static_cast|COVFIE_DEVICE\s+static|static\s+(std::|owning_data_t|void|std::size_t|matrix|affine|auto)", line):
+                    bad.append("%s:%d %s" % (f, i, line.strip()[:80]))
+    return {"name": "no-static-threadlocal-mutable-state", "status": "violated" if bad else "holds",
+            "tool": "keyword scan of the headers (tools/props.py)", "cmd": "",
+            "detail": ("; ".join(bad))[:600] if bad else "no mutable / thread_local members and no non-constexpr static data in lib/core/covfie/core",
+            "obligation": "hidden-state"}
+
+
+def cells_C15(tier, consts):
+    return _both_flavours(sweep_cells(tier, consts))
+
+
+PROPS["C15"] = {
+    "level_text": "every function under contract is verified in an assertion-enabled and an NDEBUG flavour, under its contract precondition, against CBMC's undefined-behaviour obligations (array bounds, pointer validity and arithmetic, signed overflow, undefined shifts, division by zero), the library's own asserts (debug flavour), and 'a value-returning function returns' (postconditions on the result); debug and release texts differ only in side-effect-free assertions, so discharged asserts imply identical results",
+    "level_note": "functions that are not extracted (constructors other than the array's, defaulted members, field_view, nd_map, parameter packs) are covered only by the g++ -Wreturn-type static fact; uninitialised reads are covered where a contract states the result is a function of the inputs; 'randomly generated programs' are not generated: the quantifier is met function by function",
+    "design_ref": "DESIGN.md section 5 (C15)",
+    "cells": cells_C15, "consts": True,
+    "static_facts": lambda tier, scratch: [static_fact_return_type(tier, scratch), static_fact_assert_purity(tier, scratch)],
+    "explanation": "UB obligations of every extracted function in both build flavours",
+    "trusted_base": ["CBMC's instrumentation of --bounds-check --pointer-check --signed-overflow-check --undefined-shift-check --div-by-zero-check --pointer-overflow-check"],
+    "assumptions": ["supporting static facts (g++ -Wreturn-type, syntactic assert-purity scan) are reported as such and are not counted as obligations"],
+    "not_covered": ["code that is not extracted", "CUDA code"],
+}
+
+
+def cells_C16(tier, consts):
+    return [c for c in _both_flavours(sweep_cells(tier, consts, lookups_only=True)) if c.flavour == "ndebug" or tier == "thorough"]
+
+
+PROPS["C16"] = {
+    "level_text": "race freedom by frame conditions, not by exploring schedules: every extracted lookup (at() of every layer, the index functions, adjust/shuffle/at_helper/_backend_index_helper) is proved to assign nothing but its own locals (dfcc assigns-clause obligations; the abstract backend's ghosts excepted) and its result is proved to be a function of its inputs (functional postconditions); two executions that write nothing cannot race and see the same values; writes through views to distinct coordinates touch distinct elements (C01 injectivity + array element disjointness)",
+    "level_note": "assumes the C++ memory model's definition of a data race; views are copied member-wise; non-extracted glue is const; function-local statics are hoisted by rule R18 so that dfcc checks them",
+    "design_ref": "DESIGN.md section 5 (C16)",
+    "cells": cells_C16, "consts": True,
+    "static_facts": lambda tier, scratch: [static_fact_hidden_state(tier, scratch)],
+    "explanation": "frame conditions of every lookup",
+    "trusted_base": ["goto-instrument --dfcc frame-condition instrumentation"],
+    "assumptions": ["no schedule is explored; data-race freedom follows from 'no writes' + the C++ memory model"],
+    "not_covered": ["threads writing to the same coordinate", "non-extracted code"],
+}
